@@ -74,7 +74,7 @@ KNOWN = [
      "what": "TcpHeader::from_bytes masks the reserved bits (low nibble of byte 12, top two bits of byte 13) away, so "
              "re-encoding an accepted segment with such a bit set does not reproduce it; nothing else changes "
              "(C08_tcp_encode_decode_masked) and outside the class the clause holds (C08_tcp_encode_decode_iff)",
-     "replay": "tcpd 0 0 20 00010002000000030000000450c2000500000006"},
+     "replay": "tcpd 0 0 20 0001000200000003000000045fc2000500000006"},
 ]
 
 PART = {
